@@ -25,6 +25,12 @@ MEMBERS = ["cw1", "cw20", "cw3", "cw4", "easy-addr", "cw1-subkeys", "cw1-whiteli
            "cw20-ics20", "cw3-fixed-multisig", "cw3-flex-multisig", "cw4-group", "cw4-stake"]
 
 
+# What is analysed is what gets deployed, not what the tests run: the release artefact has no debug assertions (a guard turned
+# into `debug_assert!` passes every test and is absent on chain), so the MIR is built without them.  Overflow checks stay on in the
+# MIR - whether the deployed build keeps them is the separate obligation A-OVF, read from the release profile on every run.
+RUSTFLAGS = "-Zmir-opt-level=0 -Awarnings -Cdebug-assertions=off -Coverflow-checks=on"
+
+
 class ExtractError(Exception):
     pass
 
@@ -47,7 +53,8 @@ def tree_hash(repo=None):
         with open(f, "rb") as fh:
             h.update(fh.read())
         h.update(b"\0")
-    # the driver is part of the identity of the facts
+    # the driver and the flags it runs under are part of the identity of the facts
+    h.update(RUSTFLAGS.encode())
     for f in sorted(glob.glob(os.path.join(DRIVER_DIR, "src", "*.rs"))):
         with open(f, "rb") as fh:
             h.update(fh.read())
@@ -81,7 +88,7 @@ def run_driver(repo, out_dir, target_dir, extra_args=None, features_lib=False):
     env.update({
         "CWFACTS_OUT": out_dir,
         "LD_LIBRARY_PATH": os.path.join(sysroot(), "lib") + ":" + env.get("LD_LIBRARY_PATH", ""),
-        "RUSTFLAGS": "-Zmir-opt-level=0 -Awarnings",
+        "RUSTFLAGS": RUSTFLAGS,
         "RUSTC_WORKSPACE_WRAPPER": DRIVER,
         "CARGO_TARGET_DIR": target_dir,
         "CARGO_NET_OFFLINE": "true",
